@@ -462,6 +462,8 @@ def t13_len2(run, fx):
 
 
 def check(run, fx, tier, floors=True):
+    import ignored
+    ignored.run_for(run, fx, 'C13', floors)
     if floors or fx.body("tables::variable_fonts::fvar::FvarTable::<'_>::owned_tuple") is not None:
         t13_len2(run, fx)
     if floors or fx.body("<tables::variable_fonts::fvar::FvarTable<'b> as binary::read::ReadBinary>::read") is not None:
